@@ -17,6 +17,7 @@ MagOfNat(n) == IF n = 0 THEN <<>> ELSE <<n % Base>> \o MagOfNat(n \div Base)
 \* from a native (32-bit) integer
 BOf(i) == IF i = 0 THEN BZero
           ELSE IF i > 0 THEN [s |-> 1, m |-> MagOfNat(i)]
+          ELSE IF i < -2147483647 THEN [s |-> -1, m |-> <<3648, 4748, 21>>]   \* 0 - i would overflow TLC's ints
           ELSE [s |-> -1, m |-> MagOfNat(0 - i)]
 
 RECURSIVE MagTrim(_)
